@@ -33,7 +33,13 @@ def S(e):
     if k == "var":
         return e["name"]
     if k == "member":
-        return S(e["base"]) + ("->" if e["arrow"] else ".") + e["field"]
+        if not e["field"]:
+            # implicit access to an anonymous struct/union member: transparent
+            return S(e["base"]) + ("->" if e["arrow"] else "")
+        b = S(e["base"])
+        if b.endswith("->"):
+            return b + e["field"]
+        return b + ("->" if e["arrow"] else ".") + e["field"]
     if k == "call":
         if e.get("callee") == "__errno_location":
             return "&errno"
